@@ -754,6 +754,18 @@ func (w *World) verifyFunc(con *Contract) (fr *FuncResult) {
 	if f == nil || f.Blocks == nil {
 		e.abort("no body for %s", con.Key)
 	}
+	for _, tn := range con.StableTypes {
+		t := w.resolveType(tn, con.Pkg)
+		if t == nil {
+			e.abort("stable-types: unknown type %s", tn)
+		}
+		if mt, ok := t.Underlying().(*types.Map); ok {
+			k := sanitize(mt.String())
+			e.stablePrefixes = append(e.stablePrefixes, "has_"+k, "val_"+k, "len_"+k)
+		} else {
+			e.stablePrefixes = append(e.stablePrefixes, sanitize(t.String()))
+		}
+	}
 	e.registerLoops(f)
 	nLoops := len(loopHeaders(f))
 	for k := range con.Loops {
@@ -790,6 +802,31 @@ func (w *World) verifyFunc(con *Contract) (fr *FuncResult) {
 		s.assume("%s", g)
 	}
 	e.entry = s.clone()
+	if len(con.Stable) > 0 {
+		// "stable" locations: assumed not written by abstracted callees (configuration wired at start-up)
+		e.stableLocs = map[string][]string{}
+		senv := &SpecEnv{e: e, cur: s, old: s, vars: e.entryVars, pkg: con.Pkg, bound: map[string]bool{}}
+		for _, ent := range con.Stable {
+			if ent.Kind != "field" {
+				e.abort("stable: only obj.field items are supported (%s)", ent.Src)
+			}
+			ov := senv.eval(ent.Obj)
+			bt, isPtr := derefType(ov.T)
+			st, ok := bt.Underlying().(*types.Struct)
+			if !isPtr || !ok {
+				e.abort("stable %s: not a field of a struct pointer", ent.Src)
+			}
+			ref := senv.refOf(ov)
+			for i := 0; i < st.NumFields(); i++ {
+				if st.Field(i).Name() != ent.Field {
+					continue
+				}
+				e.disassemble(st.Field(i).Type(), structFam(bt, ent.Field), e.symbolicQuiet(st.Field(i).Type()), func(p, so, _ string) {
+					e.stableLocs[p] = append(e.stableLocs[p], ref)
+				})
+			}
+		}
+	}
 	e.obls = append(e.obls, Oblig{Key: shortFunc(f.String()) + "/vacuity@requires", Kind: "vacuity", Func: f.String(), Pre: append([]string{}, s.pc...), Goal: "false", Canary: true, Desc: "the precondition must be satisfiable"})
 	e.blockFrom(s, f.Blocks[0], 0, 0)
 	return
